@@ -3,6 +3,8 @@ import FordModel.Reader
 import FordModel.InitialValue
 import FordModel.Include
 import FordModel.IncludeCfg
+import FordModel.PassBack
+import FordModel.PassBackCfg
 namespace Ford
 open Proto
 
@@ -44,6 +46,21 @@ def rerrName : RErr → Str
   | .altInline => "alt-inline".toList
   | .ampStart => "amp-start".toList
   | .internal => "internal".toList
+
+/-- the calls of a `c02.step` schedule: `n` next, `u` pass_back(last item), `d` read_docstring, `p<text>` pass_back(text) -/
+def parseOps : List Str → List PassBack.Op
+  | [] => []
+  | ('p' :: t) :: rest => .push t :: parseOps rest
+  | ['u'] :: rest => .unget :: parseOps rest
+  | ['d'] :: rest => .docstring :: parseOps rest
+  | _ :: rest => .next :: parseOps rest
+
+def evFields : List PassBack.Ev → List Str
+  | [] => []
+  | .item x :: r => ('I' :: x) :: evFields r
+  | .docs ds :: r => ('D' :: showNat ds.length) :: ds ++ evFields r
+  | .stop :: r => ['E'] :: evFields r
+  | .err e :: r => ('X' :: ierrName e) :: evFields r
 
 def dispatchC02 : List Str → Option (List Str)
   | cmd :: args =>
@@ -89,6 +106,31 @@ def dispatchC02 : List Str → Option (List Str)
           match Include.readFS Include.readerCfg { doc := d, pre := p, alt := a, preAlt := pa } fs (fs.length + 2) main with
           | .ok items => some ("ok".toList :: items)
           | .error e => some ["err".toList, ierrName e]
+      | _ => some ["bad-request".toList]
+    else if cmd == "c02.step".toList then
+      -- c02.step <doc> <pre> <alt> <preAlt> <nops> <op>* <nfiles> (<name> <nlines> <line>*)* <line of the main file>*
+      -- the reader driven call by call (`PassBack.runOps`): one field per event, see `evFields`
+      match args with
+      | d :: p :: a :: pa :: nops :: rest0 =>
+        let k := natOf nops
+        if rest0.length < k + 1 then some ["bad-request".toList] else
+        let ops := parseOps (rest0.take k)
+        match rest0.drop k with
+        | nf :: rest =>
+          match parseFiles (natOf nf) rest with
+          | none => some ["bad-request".toList]
+          | some (fs, main) =>
+            let m : Marks := { doc := d, pre := p, alt := a, preAlt := pa }
+            let resolve : Str → Include.Res := fun name =>
+              match Include.lookupFS fs name with
+              | none => if Include.endsWithH name then .missingH else .failed .notFound
+              | some ls =>
+                match Include.readFS Include.readerCfg m fs (fs.length + 1) ls with
+                | .ok l => .items l
+                | .error e => .failed e
+            some ("ok".toList :: evFields (PassBack.runOps Include.readerCfg resolve m PassBack.readerOrder
+                    PassBack.readerFront 100000 ops { rs := {}, pending := [], lines := main } none))
+        | [] => some ["bad-request".toList]
       | _ => some ["bad-request".toList]
     else if cmd == "c02.cfg".toList then
       some ["ok".toList, (if Include.readerCfg.incPrologue then ['1'] else ['0']),
